@@ -8,6 +8,7 @@ require (
 	github.com/cornelk/hashmap v1.0.1
 	github.com/sirupsen/logrus v1.9.3
 	github.com/spf13/afero v1.11.0
+	google.golang.org/protobuf v1.34.2
 )
 
 require (
@@ -69,7 +70,6 @@ require (
 	golang.org/x/sync v0.8.0 // indirect
 	golang.org/x/sys v0.24.0 // indirect
 	golang.org/x/text v0.17.0 // indirect
-	google.golang.org/protobuf v1.34.2 // indirect
 	gopkg.in/warnings.v0 v0.1.2 // indirect
 	gopkg.in/yaml.v2 v2.4.0 // indirect
 	gopkg.in/yaml.v3 v3.0.1 // indirect
